@@ -284,6 +284,10 @@ where
 
         if self.current_timestamp.0 == 0 {
             self.positions = vec![HashCell::default(); MAX_ELEMENTS];
+        } else if self.current_timestamp.0 == u32::MAX {
+            // untouched cells carry u32::MAX as their stamp; restamp all cells so
+            // that none of them looks occupied during this generation
+            self.positions.iter_mut().for_each(|cell| cell.time = 0);
         }
     }
 
